@@ -85,7 +85,12 @@ func (f *fileDecorator) fragment(node ast.Node) {
 			}
 
 			// avoid newlines inside multi-line (back-quoted) strings or bad nodes
+			tokenf := f.Fset.File(astf.Pos())
 			for _, frag := range f.fragments {
+				if f.Fset.File(frag.Position()) != tokenf {
+					// fragment of another file of the package: its line numbers mean nothing here
+					continue
+				}
 				switch frag := frag.(type) {
 				case *stringFragment:
 					if !strings.HasPrefix(frag.String, "`") {
@@ -124,7 +129,6 @@ func (f *fileDecorator) fragment(node ast.Node) {
 			// at a time and get the line number from the FileSet. As the line number increments,
 			// we know where the newlines are.
 			line := 1
-			tokenf := f.Fset.File(astf.Pos())
 			max := tokenf.Base() + tokenf.Size()
 			for i := tokenf.Base(); i < max; i++ {
 				pos := f.Fset.Position(token.Pos(i))
